@@ -9,6 +9,7 @@ import (
 
 	"github.com/lianxiangcloud/linkchain/libs/common"
 	"github.com/lianxiangcloud/linkchain/libs/crypto"
+	"github.com/lianxiangcloud/linkchain/libs/cryptonote/xcrypto"
 	"github.com/lianxiangcloud/linkchain/libs/log"
 	"github.com/lianxiangcloud/linkchain/types"
 
@@ -80,6 +81,10 @@ type tampered struct {
 	memAcc bool
 	sameH  bool // same transaction hash as the original (must never happen; forces a warm block variant)
 	ghost  bool
+	comp   string // what was edited (component / catalogue entry)
+	field  bool   // a signed field / component was edited (not only signature values)
+	rct    bool   // only the ring-confidential part of a UTXO transaction was edited
+	unused bool   // the edited field takes no part in the authorisation
 }
 
 type runner struct {
@@ -99,11 +104,15 @@ type runner struct {
 	ghostBlk *types.Block
 	ghostRaws [][]byte
 	carry map[types.Tx]*sent // P's mempool objects of earlier rounds -> submission
+	forged []*tampered       // forgeries produced while generating the round (foreign-key spends)
+	utxo  bool               // this run exercises confidential transactions
 }
 
 func run(c *kernel.Ctx) {
 	simnode.InitGlobals()
 	learnPrefixes()
+	xcrypto.SetRand(c.Tape.Fork("xcrypto"))
+	defer xcrypto.SetRand(nil)
 	kernel.Bubble(c, true, func() {
 		r := &runner{c: c, carry: map[types.Tx]*sent{}}
 		defer func() {
@@ -150,7 +159,20 @@ func (r *runner) main() {
 	r.cfg = cfg
 	r.smp.Cfg = cfg
 
-	w := &world{c: c, p: new(big.Int).Set(types.SignParam), byAddr: map[addr20]*userKey{}, valByAd: map[string]*valInfo{}, signers: map[int]*signersModel{}}
+	w := &world{c: c, p: new(big.Int).Set(types.SignParam), byAddr: map[addr20]*userKey{}, valByAd: map[string]*valInfo{}, signers: map[int]*signersModel{}, honestUtx: map[string]bool{}}
+	r.utxo = ct.Bool(2, 3)
+	if r.utxo {
+		for i := 0; i < 3; i++ {
+			wl := newWallet(2)
+			wl.idx = i
+			w.wallets = append(w.wallets, wl)
+		}
+		for i := 0; i < 2; i++ {
+			wl := newWallet(2)
+			wl.idx = -1 - i
+			w.strangers = append(w.strangers, wl)
+		}
+	}
 	r.w = w
 	w.now = 946684800 + 10
 	spec := &simnode.GenesisSpec{ChainID: "verif-c08", IsTrie: cfg.IsTrie}
@@ -221,7 +243,9 @@ func (r *runner) main() {
 		} else {
 			honest = r.genRound(round)
 		}
-		r.round(round, honest)
+		forged := r.forged
+		r.forged = nil
+		r.round(round, honest, forged)
 		// virtual time: mostly short gaps, sometimes past the cache's delayed expiry
 		gap := time.Duration(1+r.wl.Int(5)) * time.Second
 		if r.wl.Bool(1, 4) {
@@ -278,6 +302,38 @@ func (r *runner) genRound(round int) []*sent {
 		}
 		if add(w.genMultiSign(t, r.mstNonce, typ, min, ents, signersOf)) {
 			r.mstNonce++
+		}
+	}
+	if r.utxo {
+		// confidential side: a funding transaction in most rounds, spends once outputs exist
+		if round <= 2 || t.Bool(1, 2) {
+			u := r.funded[t.Int(len(r.funded))]
+			s, err := w.genFund(t, u, r.nonce[u.a20])
+			if add(s, err) {
+				r.nonce[u.a20]++
+			}
+			if r.stop {
+				return out
+			}
+		}
+		for k := 0; k < 2 && round > 1; k++ {
+			s, foreign, err := w.genSpend(t)
+			if err != nil {
+				r.trouble("generate spend: %v", err)
+				return out
+			}
+			if s == nil {
+				break
+			}
+			out = append(out, s)
+			if foreign != nil {
+				raw := encodeTx(foreign)
+				if wt, err := parseUtxWire(raw); err == nil {
+					r.forged = append(r.forged, &tampered{src: s, wt: wt, raw: raw, name: "spend-built-with-another-wallets-keys", comp: "foreign-keys", field: true, v: w.judge(wt)})
+				}
+			} else {
+				r.c.Probe("foreign-key-spend-unbuildable")
+			}
 		}
 	}
 	for i := 0; i < r.cfg.PerRound; i++ {
@@ -366,7 +422,7 @@ func (r *runner) planGhost(first []*sent, toks *[]tokenAlloc) {
 		for _, t := range w.tokens {
 			*toks = append(*toks, tokenAlloc{common.Address(v.chargee), t, big.NewInt(5000)})
 		}
-		r.ghost = &tampered{src: src, wt: wt, raw: wt.bytes(), name: e.name, v: v, ghost: true}
+		r.ghost = &tampered{src: src, wt: wt, raw: wt.bytes(), name: e.name, v: v, ghost: true, comp: e.name, field: true}
 		r.ghostSrc = src
 		return
 	}
